@@ -160,6 +160,10 @@ func builtinMathPow(call FunctionCall) Value {
 	if math.Abs(x) == 1 && math.IsInf(y, 0) {
 		return NaNValue()
 	}
+	if math.IsNaN(y) {
+		// 15.8.2.13: "If y is NaN, the result is NaN"; math.Pow(1, NaN) is 1.
+		return NaNValue()
+	}
 	return float64Value(math.Pow(x, y))
 }
 
